@@ -1722,6 +1722,7 @@ STATEMENTS = {
 	'model_effects': 'for every container, op and fuel: one step of the model leaves every dictionary outside the code-derived write set of that op, and the class, exactly as it was (with tightness examples: the model does write each listed dictionary)',
 	'containers_own_their_dicts': 'decide +kernel over the GENERATED table: every dictionary attribute assigned on a container made by _clone / combine / instantiate receives a fresh dict (display, comprehension, .copy()), no method hands a dictionary object out, nothing is written to `other` and the methods called on it are write-free; _clone/combine assign exactly the attributes Cont.clone / Cont.combine copy',
 	'clone_combine_generated': 'for all containers: the hand-written Cont.clone / Cont.combine (about which the combine theorems speak) equal the GENERATED Lean translations of the statements of DI._clone, LazyDI._clone, DI.combine, LazyDI.combine (gen_di_state.py: {**a, **b} = Dict.merge, filtering dict comprehension = Dict.filterKeys, sequential assignments, virtual self._clone()); error branches = class guard (TypeError) and missing __definitions (AttributeError)',
+	'methods_generated': 'for every container, counter, symbol reference and factory: the GENERATED do-blocks of bind / unbind / rebind / can_resolve / _binded / resolve of DI and LazyDI and of all helpers they call (translate/di_methods.py: ast of di.py statement by statement; dict item get / set / del with KeyError, raise, `is None` guards, virtual self-calls by receiver class, super()) compute exactly what Cont.bind / unbind / rebind / canResolve / binded and resolveF (self.invoke = invokeF) compute; so the refinement theorems speak about the translated statements',
 	'invoke_raising': 'invoke of a factory whose body raises never returns an object',
 	'resolve_raising': 'resolve of a symbol bound or lazily defined to a factory whose body raises fails, stores nothing for the symbol and keeps its binding (the factory is called again next time), at any nesting depth',
 	'fuel_sufficient': 'fuel is only a device: if the bindings of the history respect a rank (acyclic factory graph), resolve/invoke with more fuel than the rank never yields RecursionError',
@@ -1751,12 +1752,12 @@ def run(ctx: Ctx) -> int:
 		translate_ok=translate_ok, translate_msg=translate_msg,
 		statements=STATEMENTS,
 		partial={
-			'generated_state': 'Generated/DIState.lean is rewritten from the ast of lang/di.py on every run (per method: dictionaries written on self / on other, dictionary attributes assigned on a new container and whether the value is a fresh dict, escaping dictionaries, container methods called, resolved for both dynamic classes; unknown shapes raise TranslateError = broken tie); state_fields / code_effects / containers_own_their_dicts are decided over it and model_effects ties the model to it; the bodies of _clone / combine (both classes) are translated statement by statement into Lean terms and proved equal to the model (clone_combine_generated)',
+			'generated_state': 'Generated/DIState.lean is rewritten from the ast of lang/di.py on every run (per method: dictionaries written on self / on other, dictionary attributes assigned on a new container and whether the value is a fresh dict, escaping dictionaries, container methods called, resolved for both dynamic classes; unknown shapes raise TranslateError = broken tie); state_fields / code_effects / containers_own_their_dicts are decided over it and model_effects ties the model to it; the bodies of _clone / combine (both classes) are translated statement by statement into Lean terms and proved equal to the model (clone_combine_generated); Generated/DIMethods.lean holds the bodies of the 19 registry / resolve methods as do-blocks, proved equal to the model functions (methods_generated)',
 			'generated': 'Generated/DIWiring.lean is rewritten from app/config.py + providers/app.py + providers/syntax/entrypoints.py on every run (tables evaluated by import, statement shapes by ast; unknown shapes raise TranslateError = broken tie); production_* theorems are decide +kernel over it; the real op log of the production stream is compared with the generated handler/di_container shapes',
 			'usage': 'derived operations di_container / per-module load (Model: diContainerOps, loadModuleOps) with isolation theorems; production op logs replayed on the model (stream di-production) and the isolation laws checked on the real containers (search production laws)',
 			'proved': 'refinement concrete dictionaries -> Spec for every op sequence; singleton per binding generation; rebind discards the instance; combine: right operand wins (bindings, instances, unresolved definitions); frame (operands of combine/clone are unaffected); lazy materialisation is per clone; unknown symbol -> ValueError; the invoke law (fill leading resolvable annotated parameters, validate the rest on every call)',
 			'regression': 'the five defects of the snapshot tree (repaired by c3fd82c / 6d5a231) are corpus cases of the stream and OFF-switches of the reference: their return is reported under the old finding keys with the op sequence',
-			'correspondence_only': 'that dictionaries are copied not shared by _clone/combine is now read from the source (containers_own_their_dicts, syntactic: fresh-dict expressions only, no escaping dictionary) in addition to the stream that keeps using all operands after combine and compares dict object identities; still correspondence-only: the statement-level logic of the other methods (bind / unbind / rebind / resolve / invoke and the LazyDI overrides are hand-written line by line; _clone / combine are generated), Python-level details of what a factory object exposes (__annotations__ of __to_annotated(factory), hash/equality of that callable, arity)',
+			'correspondence_only': 'that dictionaries are copied not shared by _clone/combine is now read from the source (containers_own_their_dicts, syntactic: fresh-dict expressions only, no escaping dictionary) in addition to the stream that keeps using all operands after combine and compares dict object identities; still correspondence-only: the statement-level logic of invoke and its helpers __to_annotated / __pluck_annotations / __assert_invoke and of instantiate (hand-written line by line; every other method of di.py is generated and proved equal to the model), Python-level details of what a factory object exposes (__annotations__ of __to_annotated(factory), hash/equality of that callable, arity)',
 		},
 		assumptions=[
 			'symbol classes have pairwise different full names __module__ + __qualname__ (so LazyDI\'s path keys and DI\'s class keys are in bijection); module-level classes are importable by that path, nested / function-local classes (model ids >= 500) are not: a LazyDI definition of such a class is visible but resolve raises ModuleNotFoundError (modelled)',
